@@ -34,6 +34,10 @@ def or64 (a b : Int) : Int := (BitVec.ofInt 64 a ||| BitVec.ofInt 64 b).toInt
 /-- `a << k` on C `int`, result wrapped (UB in C when it overflows; models gcc/clang behaviour). -/
 def shl32 (a : Int) (k : Int) : Int := wrapS 32 (a * 2 ^ k.toNat)
 def shlU32 (a : Int) (k : Int) : Int := wrapU 32 (a * 2 ^ k.toNat)
+/-- `a << k` before the wrap to the (at most 64-bit) result type, for a *variable* count: the exponent is capped at 64.
+    After any `wrapU n`/`wrapS n` with `n ≤ 64` this equals `a * 2 ^ k.toNat` (`shlRaw_wrapU`, `shlRaw_wrapS` in
+    Lemmas/Bits.lean); the cap only keeps the executable model from materialising `2 ^ (2^32)` on garbage counts. -/
+def shlRaw (a : Int) (k : Int) : Int := a * 2 ^ (min k.toNat 64)
 /-- arithmetic `a >> k` on C `int`. -/
 def shr (a : Int) (k : Int) : Int := a / 2 ^ k.toNat   -- Int `/` is floor for positive divisor (Int.div rounds toward -inf with `/`? see lemma)
 /-- C division truncates toward zero. -/
